@@ -534,6 +534,18 @@ fn sanitizer_workload(args: &Args, prop: &'static str) -> i32 {
                 bad += 1;
             }
             println!("SAN-RUN engine=uth_chaos seed={} points={} events={}", seed, out.points, out.events);
+            for close in [false, true] {
+                if close != (prop == "C12") && !big {
+                    continue;
+                }
+                let r = th::race::unmanaged_race(prop, seed, close);
+                runs += 1;
+                for v in &r.violations {
+                    println!("VIOLATION-CANDIDATE property={} sig={}/san/uth_race/{} replay=- :: {} :: {}", prop, prop, v.oracle, v.oracle, v.msg);
+                    bad += 1;
+                }
+                println!("SAN-RUN engine=uth_race close={} seed={} events={}", close, seed, r.events);
+            }
         } else {
             let cfg = th::managed::ChaosCfg {
                 threads: 3,
@@ -552,6 +564,15 @@ fn sanitizer_workload(args: &Args, prop: &'static str) -> i32 {
                 bad += 1;
             }
             println!("SAN-RUN engine=th_chaos seed={} points={} events={}", seed, out.points, out.events);
+            if matches!(prop, "C06" | "C07" | "C01" | "C02") {
+                let r = th::race::managed_race(prop, seed, prop == "C06");
+                runs += 1;
+                for v in &r.violations {
+                    println!("VIOLATION-CANDIDATE property={} sig={}/san/th_race/{} replay=- :: {} :: {}", prop, prop, v.oracle, v.oracle, v.msg);
+                    bad += 1;
+                }
+                println!("SAN-RUN engine=th_race seed={} events={}", seed, r.events);
+            }
             if prop == "C06" {
                 // objects that outlive every pool handle are still usable and droppable
                 let (ok, msg) = th::managed::outlive_scenario();
@@ -713,7 +734,7 @@ fn main() {
                 if args.engine_enabled("th_chaos") {
                     th_chaos_managed(&args, &mut rep, prop, sc(150.0, 3000.0), false);
                 }
-                if args.engine_enabled("th_race") && matches!(prop, "C06" | "C07") {
+                if args.engine_enabled("th_race") && matches!(prop, "C06" | "C07" | "C11") {
                     th_race(&args, &mut rep, prop, sc(300.0, 12_000.0), false, prop == "C06");
                 }
                 if args.engine_enabled("th_hammer") {
